@@ -33,9 +33,40 @@ def prop_c03_sim(spec, rec):
     rec.case(spec, labels, throttled)
 
 
+def prop_c03_stochastic(spec, rec):
+    """The same column-wise bound on simulations over the contributed StochasticNetwork (stations
+    assigned at run time, waiting queue, early departure): 0 <= recorded rate <= recorded pilot,
+    in particular nothing is recorded for a station nobody is connected to."""
+    from . import c19
+
+    picker = c19.Picker(spec["choices"])
+    net, sim, evs = c19.build(spec)
+    c19.run(sim, picker)
+    R, P = np.array(sim.charging_rates, dtype=float), np.array(sim.pilot_signals, dtype=float)
+    vacant_pilot = False
+    for i, sid in enumerate(spec["stations"]):
+        for t in range(min(R.shape[1], sim.iteration)):
+            r, p = float(R[i, t]), float(P[i, t]) if t < P.shape[1] else 0.0
+            require(r >= -1e-8, "sim_rate_nonnegative", lambda: "station %s period %d rate %r" % (sid, t, r))
+            require(r <= p + 1e-8, "sim_rate_le_pilot", lambda: "stochastic network: station %s period %d rate %r > pilot %r" % (sid, t, r, p))
+            if t in net.before and net.before[t][0][sid] is None:
+                require(r == 0, "sim_rate_without_ev", lambda: "stochastic network: station %s period %d is vacant but records %r A" % (sid, t, r))
+                if p > 0:
+                    vacant_pilot = True
+    labels = {"stochastic", "early_on" if spec["early"] else "early_off"}
+    if vacant_pilot:
+        labels.add("pilot_on_vacant_station")
+    rec.case(spec, labels, vacant_pilot)
+
+
 def c03_subchecks(tier):
-    return [Given("sim_bounds", sc.scenarios(), prop_c03_sim, quick=250, thorough=20000, floors={"battery_throttled": 0.25, "noise": 0.2})]
+    from . import c19
+
+    return [
+        Given("sim_bounds", sc.scenarios(), prop_c03_sim, quick=250, thorough=20000, floors={"battery_throttled": 0.25, "noise": 0.2}),
+        Given("sim_bounds_stochastic", c19.cases(), prop_c03_stochastic, quick=150, thorough=10000, floors={"pilot_on_vacant_station": 0.2}, jobs_quick=2),
+    ]
 
 
 def replay_c03(subcheck, spec, rec):
-    return prop_c03_sim(spec, rec)
+    return (prop_c03_stochastic if subcheck == "sim_bounds_stochastic" else prop_c03_sim)(spec, rec)
